@@ -396,6 +396,9 @@ func (g *Gen) equal(x, y Val) string {
 
 // strEqFacts: when one side is a literal, tie (= x lit) to content equality.
 func (g *Gen) strEqFacts(a, b string) {
+	if g.inQuant > 0 {
+		return // the terms may mention bound variables: no top-level fact
+	}
 	for _, p := range [][2]string{{a, b}, {b, a}} {
 		x, l := p[0], p[1]
 		if !strings.HasPrefix(l, "lit.") || strings.HasPrefix(x, "lit.") {
@@ -1012,6 +1015,7 @@ func (g *Gen) slice(x *ssa.Slice) Val {
 
 func (g *Gen) substr(s, lo, hi string, t types.Type) Val {
 	f := g.uf("s.sub", []string{"Str", g.idxSort(), g.idxSort()}, "Str")
+	g.substrWhole()
 	r := g.define("sub", "Str", fmt.Sprintf("(%s %s %s %s)", f, s, lo, hi))
 	g.assume(fmt.Sprintf("(= (s.len %s) %s)", r, g.sub(hi, lo)))
 	i := g.idxSort()
